@@ -88,4 +88,110 @@ def askRemove (s : List AskKey) (key : String) : List AskKey :=
 /-- the documented order: priority descending, then creation time ascending -/
 def askBefore (a b : AskKey) : Bool := decide (a.prio > b.prio) || (a.prio == b.prio && decide (a.ctime < b.ctime))
 
+/-! ### children a parent queue offers to the scheduling cycle (queue.go: sortQueues, GetFairMaxResource) -/
+
+/-- `internalGetFairMaxResource(limit)`: a clone of the parent's value with the queue's own max merged over it (the
+    child wins every collision); the own max is ignored when it is nil/empty or when the parent's value is nil/empty. -/
+def fairMaxMerge (limit own : ORes) : ORes :=
+  if isEmpty own || isEmpty limit then limit
+  else some ((orZero own).foldl (fun out p => out.set p.1 p.2) (orZero limit))
+
+/-- `GetFairMaxResource` of the queue whose ancestors below the root have the own maxima `anc` (top down):
+    the root's value is a clone of its max, every queue on the way down merges its own max. -/
+def fairMaxChain (rootMax : ORes) (anc : List ORes) : ORes := anc.foldl fairMaxMerge rootMax
+
+/-- `GetFairMaxResource` of a child: a function of the maxima of its ancestors and of its own max, nothing else. -/
+def fairMaxOf (rootMax : ORes) (anc : List ORes) (own : ORes) : ORes := fairMaxMerge (fairMaxChain rootMax anc) own
+
+/-- a fair share: the float `num / den` of getFairShare as an exact fraction (`den > 0`) -/
+structure Share where
+  num : Int
+  den : Int
+  deriving Repr, DecidableEq
+
+def shareLt (a b : Share) : Bool := decide (a.num * b.den < b.num * a.den)
+def shareEq (a b : Share) : Bool := !shareLt a b && !shareLt b a
+
+/-- `getShareFairForDenominator(resourceType, allocated, denominatorResources)`; `none` = not found -/
+def shareForDen (k : String) (alloc : Int) (den : ORes) : Option Share :=
+  match den with
+  | none => none
+  | some d =>
+    match d.get? k with
+    | some v => if v ≤ 0 then (if alloc ≤ 0 then some ⟨0, 1⟩ else some ⟨1, 1⟩) else some ⟨alloc, v⟩
+    | none => none
+
+/-- `getFairShare(allocated, guaranteed, fair)`: the largest ratio over the allocated types, against the guarantee
+    when it names the type, else against the fair max; types with negative usage or without denominator are skipped -/
+def fairShare (allocated guaranteed fair : ORes) : Share :=
+  (orZero allocated).foldl (fun (mx : Share) (p : String × Int) =>
+    if p.2 < 0 then mx else
+      match (shareForDen p.1 p.2 guaranteed).orElse (fun _ => shareForDen p.1 p.2 fair) with
+      | some s => if shareLt mx s then s else mx
+      | none => mx) (⟨0, 1⟩ : Share)
+
+/-- what sortQueues reads of a child queue -/
+structure Child where
+  name : String
+  max : ORes            -- own max (maxResource)
+  guaranteed : ORes
+  allocated : ORes
+  pending : ORes
+  prio : Int            -- GetCurrentPriority
+  stopped : Bool        -- state Stopped (Active and Draining are both scheduled)
+  deriving Repr, DecidableEq
+
+def cPendingGt (l r : Child) : Bool := strictlyGreaterThan (some (sub l.pending r.pending)) (some [])
+
+/-- the comparator of `sortQueue(queues, fairMax, sortType, considerPriority)` on two children; `fm` is the fair max
+    the comparator uses for a child (production: `fairMaxByQueue` over the slice built by sortQueues) -/
+def childLess (fair prio : Bool) (fm : Child → ORes) (l r : Child) : Bool :=
+  let ls := fairShare l.allocated l.guaranteed (fm l)
+  let rs := fairShare r.allocated r.guaranteed (fm r)
+  if fair then
+    if prio then
+      (if l.prio > r.prio then true else if l.prio < r.prio then false
+       else if shareEq ls rs then cPendingGt l r else shareLt ls rs)
+    else
+      (if shareEq ls rs then
+         (if l.prio > r.prio then true else if l.prio < r.prio then false else cPendingGt l r)
+       else shareLt ls rs)
+  else if prio then decide (l.prio > r.prio) else false
+
+/-- the candidates: not stopped, pending strictly greater than zero -/
+def offeredCands (cs : List Child) : List Child :=
+  cs.filter (fun c => !c.stopped && strictlyGreaterThanZero c.pending)
+
+/-- the parallel slice `sortedMaxFairResources`: entry i is `candidates[i].GetFairMaxResource()` -/
+def fairMaxSlice (parentFair : ORes) (cands : List Child) : List ORes := cands.map (fun c => fairMaxMerge parentFair c.max)
+
+/-- `fairMaxByQueue(queues, fairMaxResources)[q]`: a Go map from the queue (its name is its identity among siblings)
+    to the entry at its position; a missing key reads nil -/
+def fairMaxByQueue (cands : List Child) (fms : List ORes) (c : Child) : ORes :=
+  (((cands.map (·.name)).zip fms).lookup c.name).getD none
+
+/-- `Queue.sortQueues()` of a parent whose fair max chain is (rootMax, anc), over the children `cs` in the order the
+    map iteration presented them -/
+def offeredSorted (rootMax : ORes) (anc : List ORes) (fair prio : Bool) (cs : List Child) : List Child :=
+  let cands := offeredCands cs
+  let fms := fairMaxSlice (fairMaxChain rootMax anc) cands
+  stableSort (childLess fair prio (fairMaxByQueue cands fms)) cands
+
+/-- the share of a child from its OWN keys: allocated against guaranteed, else against its own fair max -/
+def ownShare (rootMax : ORes) (anc : List ORes) (c : Child) : Share :=
+  fairShare c.allocated c.guaranteed (fairMaxOf rootMax anc c.max)
+
+/-- the comparator on the children's OWN keys: allocated, guaranteed, own fair max, pending, priority -/
+def ownLess (rootMax : ORes) (anc : List ORes) (fair prio : Bool) (l r : Child) : Bool :=
+  childLess fair prio (fun c => fairMaxOf rootMax anc c.max) l r
+
+/-- a child as a candidate of the `queues` model: its share enters as a rank -/
+def toQKey (rank : Child → Int) (c : Child) : QKey := ⟨c.name, c.prio, rank c, orZero c.pending⟩
+
+/-- a breaking variant (NOT the code): one fair-max object shared by all siblings — every child merges its own max
+    into the same accumulator and every entry of the slice is that accumulator's final value -/
+def fairMaxSliceShared (parentFair : ORes) (cands : List Child) : List ORes :=
+  let acc := cands.foldl (fun a c => fairMaxMerge a c.max) parentFair
+  cands.map (fun _ => acc)
+
 end Yk
